@@ -29,6 +29,7 @@ import (
 	"fmt"
 	"math/big"
 	"math/rand"
+	"net"
 	"os"
 	"path/filepath"
 	"runtime"
@@ -536,7 +537,18 @@ func (h *vqHeaders) FetchHeader(hash *chainhash.Hash) (*wire.BlockHeader, uint32
 // filter database with gates around FetchFilter
 type vqFilterDB struct {
 	filterdb.FilterDatabase
-	s *vqSched
+	s     *vqSched
+	dirty *bool
+}
+
+func (d *vqFilterDB) PutFilters(items ...*filterdb.FilterData) error {
+	*d.dirty = true
+	return d.FilterDatabase.PutFilters(items...)
+}
+
+func (d *vqFilterDB) PurgeFilters(t filterdb.FilterType) error {
+	*d.dirty = true
+	return d.FilterDatabase.PurgeFilters(t)
 }
 
 func (d *vqFilterDB) FetchFilter(h *chainhash.Hash, t filterdb.FilterType) (*gcs.Filter, error) {
@@ -656,10 +668,25 @@ type fqPathOut struct {
 
 // per worker: databases that are reset between paths
 type vqWorker struct {
-	dir   string
-	fdb   walletdb.DB
-	fs    *filterdb.FilterStore
-	bandb walletdb.DB
+	dir      string
+	fdb      walletdb.DB
+	fs       *filterdb.FilterStore
+	bandb    walletdb.DB
+	ban      banman.Store
+	banDirty bool // the previous path left bans behind
+	fdbDirty bool // the previous path wrote to the filter database
+}
+
+// vqBanStore is the real ban store plus a note that a ban was written, so
+// that the (write-transaction) Status query is only repeated when needed.
+type vqBanStore struct {
+	banman.Store
+	dirty *bool
+}
+
+func (b *vqBanStore) BanIPNet(n *net.IPNet, r banman.Reason, d time.Duration) error {
+	*b.dirty = true
+	return b.Store.BanIPNet(n, r, d)
 }
 
 var (
@@ -681,9 +708,11 @@ type fqEnv struct {
 	ret     []int
 	rng     *rand.Rand
 
-	mu     sync.Mutex
-	staged []*filterdb.FilterData
-	sent   chan struct{}
+	mu      sync.Mutex
+	staged  []*filterdb.FilterData
+	sent    chan struct{}
+	ranCode bool // code under test ran since the last barrier
+	wg      sync.WaitGroup
 }
 
 const fqSentinelType = filterdb.FilterType(255)
@@ -727,20 +756,30 @@ func newFqEnv(u *vqUniverse, w *vqWorker, init *fqObs, seed int64) (*fqEnv, erro
 	e := &fqEnv{u: u, st: st, w: w, btip: init.Btip, ftip: init.Ftip, persist: init.Persist == 1,
 		sched: &vqSched{ev: make(chan vqEvent, 4)}, callers: map[int]*vqCaller{},
 		ret: []int{vqRUN, vqRUN}, rng: rand.New(rand.NewSource(seed)), sent: make(chan struct{}, 1)}
-	// reset the filter database to what filterdb.New leaves behind
-	if err := w.fs.PurgeFilters(filterdb.RegularFilter); err != nil {
-		return nil, err
-	}
-	gf, err := gcs.FromNBytes(builder.DefaultP, builder.DefaultM, u.fbytes[0])
-	if err != nil {
-		return nil, err
-	}
-	err = w.fs.PutFilters(&filterdb.FilterData{Filter: gf, BlockHash: &u.hashes[0], Type: filterdb.RegularFilter})
-	if err != nil {
-		return nil, err
+	// reset the filter database to what filterdb.New leaves behind (the
+	// genesis filter only)
+	if w.fdbDirty {
+		err := walletdb.Update(w.fdb, func(tx walletdb.ReadWriteTx) error {
+			top := tx.ReadWriteBucket(vqFilterBucket)
+			if top == nil {
+				return errors.New("no filter bucket")
+			}
+			if err := top.DeleteNestedBucket(vqRegBucket); err != nil {
+				return err
+			}
+			reg, err := top.CreateBucket(vqRegBucket)
+			if err != nil {
+				return err
+			}
+			return reg.Put(u.hashes[0][:], u.fbytes[0])
+		})
+		if err != nil {
+			return nil, err
+		}
+		w.fdbDirty = false
 	}
 	e.cs = &ChainService{
-		FilterDB:         &vqFilterDB{FilterDatabase: w.fs, s: e.sched},
+		FilterDB:         &vqFilterDB{FilterDatabase: w.fs, s: e.sched, dirty: &w.fdbDirty},
 		BlockHeaders:     &vqHeaders{BlockHeaderStore: st.b, s: e.sched, gate: true},
 		RegFilterHeaders: st.f,
 		persistToDisk:    e.persist,
@@ -755,7 +794,7 @@ func newFqEnv(u *vqUniverse, w *vqWorker, init *fqObs, seed int64) (*fqEnv, erro
 		e.writer = chanutils.NewBatchWriter[*filterdb.FilterData](&chanutils.BatchWriterConfig[*filterdb.FilterData]{
 			QueueBufferSize:        chanutils.DefaultQueueSize,
 			MaxBatch:               10,
-			DBWritesTickerDuration: time.Millisecond,
+			DBWritesTickerDuration: 100 * time.Microsecond,
 			PutItems:               e.putItems,
 		})
 		e.cs.filterBatchWriter = e.writer
@@ -783,6 +822,12 @@ func (e *fqEnv) close() {
 		}
 	}
 	close(e.cs.quit)
+	done := make(chan struct{})
+	go func() { e.wg.Wait(); close(done) }()
+	select {
+	case <-done:
+	case <-time.After(10 * time.Second):
+	}
 	if e.writer != nil {
 		e.writer.Stop()
 	}
@@ -838,8 +883,11 @@ func (e *fqEnv) observe() (fqObs, error) {
 	if e.persist {
 		o.Persist = 1
 	}
-	if err := e.barrier(); err != nil {
-		return o, err
+	if e.ranCode {
+		if err := e.barrier(); err != nil {
+			return o, err
+		}
+		e.ranCode = false
 	}
 	if _, h, err := e.st.b.ChainTip(); err == nil {
 		o.Btip = int(h)
@@ -1037,7 +1085,9 @@ func (e *fqEnv) startCall(c *vqCaller) error {
 	}
 	hash := e.u.hashOf(c.tgt, e.btip)
 	e.sched.cur = c
+	e.wg.Add(1)
 	go func() {
+		defer e.wg.Done()
 		defer func() {
 			if r := recover(); r != nil {
 				c.panicV = fmt.Sprintf("%v\n%s", r, vqDump())
@@ -1052,6 +1102,7 @@ func (e *fqEnv) startCall(c *vqCaller) error {
 // exec applies one model step to the real code.  The returned error is a
 // machinery error.
 func (e *fqEnv) exec(a fqAct) (fqAct, string, error) {
+	e.ranCode = true
 	out := a
 	out.Lo, out.Hi = vqRUN, vqRUN
 	variant := ""
@@ -1065,6 +1116,7 @@ func (e *fqEnv) exec(a fqAct) (fqAct, string, error) {
 		e.mu.Unlock()
 		out.Res = "ok"
 		if len(items) > 0 {
+			e.w.fdbDirty = true
 			if err := e.w.fs.PutFilters(items...); err != nil {
 				out.Res = "err"
 			}
@@ -1275,6 +1327,7 @@ func vqNewWorker(dir string) (*vqWorker, error) {
 	if w.fs, err = filterdb.New(w.fdb, chaincfg.RegressionNetParams); err != nil {
 		return nil, err
 	}
+	w.fdbDirty = true
 	w.bandb, err = walletdb.Create("bdb", filepath.Join(dir, "bans.db"), true, 10*time.Second, false)
 	return w, err
 }
@@ -1437,12 +1490,15 @@ type bqEnv struct {
 	sched *vqSched
 	cs    *ChainService
 	ban   banman.Store
+	dirty bool
+	bobs  []int
 	call  *vqCaller
 	ncall int
 	ret   int
 	last  wire.Message
 	rng   *rand.Rand
 	done  chan struct{}
+	wg    sync.WaitGroup
 }
 
 func bqPeer(p int) string { return fmt.Sprintf("10.0.%d.%d:18444", p, p) }
@@ -1455,18 +1511,26 @@ func newBqEnv(u *vqUniverse, w *vqWorker, init *bqObs, seed int64) (*bqEnv, erro
 	}
 	e := &bqEnv{u: u, st: st, w: w, nb: nb, np: np, sched: &vqSched{ev: make(chan vqEvent, 4)},
 		ret: vqRUN, rng: rand.New(rand.NewSource(seed)), done: make(chan struct{})}
-	if e.ban, err = banman.NewStore(w.bandb); err != nil {
-		return nil, err
-	}
-	for p := 1; p <= np; p++ {
-		ipn, err := banman.ParseIPNet(bqPeer(p), nil)
-		if err != nil {
+	if w.ban == nil {
+		if w.ban, err = banman.NewStore(w.bandb); err != nil {
 			return nil, err
 		}
-		if err := e.ban.UnbanIPNet(ipn); err != nil {
-			return nil, err
-		}
+		w.banDirty = true
 	}
+	if w.banDirty {
+		for p := 1; p <= 8; p++ {
+			ipn, err := banman.ParseIPNet(bqPeer(p), nil)
+			if err != nil {
+				return nil, err
+			}
+			if err := w.ban.UnbanIPNet(ipn); err != nil {
+				return nil, err
+			}
+		}
+		w.banDirty = false
+	}
+	e.ban = &vqBanStore{Store: w.ban, dirty: &e.dirty}
+	e.dirty = true
 	e.cs = &ChainService{
 		BlockHeaders: &vqHeaders{BlockHeaderStore: st.b, s: e.sched},
 		FilterCache:  lru.NewCache[FilterCacheKey, *CacheableFilter](DefaultFilterCacheSize),
@@ -1497,7 +1561,7 @@ func newBqEnv(u *vqUniverse, w *vqWorker, init *bqObs, seed int64) (*bqEnv, erro
 
 func (e *bqEnv) close() {
 	e.sched.stopped = true
-	if c := e.call; c != nil && c.at != "returned" {
+	if c := e.call; c != nil && c.at != "returned" && c.at != "done" && c.at != "" {
 		if c.at == "query" {
 			select {
 			case c.errChan <- errors.New("verif: path ended"):
@@ -1511,6 +1575,12 @@ func (e *bqEnv) close() {
 		}
 	}
 	close(e.cs.quit)
+	done := make(chan struct{})
+	go func() { e.wg.Wait(); close(done) }()
+	select {
+	case <-done:
+	case <-time.After(10 * time.Second):
+	}
 	close(e.done)
 }
 
@@ -1541,19 +1611,26 @@ func (e *bqEnv) observe() (bqObs, error) {
 		}
 		return true
 	})
-	for p := 1; p <= e.np; p++ {
-		ipn, err := banman.ParseIPNet(bqPeer(p), nil)
-		if err != nil {
-			return o, err
+	if e.dirty {
+		// only a BanIPNet call can have changed the store since the last look
+		e.bobs = vqFill(e.np, 0)
+		for p := 1; p <= e.np; p++ {
+			ipn, err := banman.ParseIPNet(bqPeer(p), nil)
+			if err != nil {
+				return o, err
+			}
+			st, err := e.w.ban.Status(ipn)
+			if err != nil {
+				return o, err
+			}
+			if st.Banned {
+				e.bobs[p-1] = 1
+				e.w.banDirty = true
+			}
 		}
-		st, err := e.ban.Status(ipn)
-		if err != nil {
-			return o, err
-		}
-		if st.Banned {
-			o.Banned[p-1] = 1
-		}
+		e.dirty = false
 	}
+	copy(o.Banned, e.bobs)
 	return o, nil
 }
 
@@ -1722,7 +1799,9 @@ func (e *bqEnv) exec(a bqAct) (bqAct, string, error) {
 			hash = e.u.foreignHash
 		}
 		e.sched.cur = c
+		e.wg.Add(1)
 		go func() {
+			defer e.wg.Done()
 			defer func() {
 				if r := recover(); r != nil {
 					c.panicV = fmt.Sprintf("%v\n%s", r, vqDump())
